@@ -112,6 +112,7 @@ class Features:
     style_names: bool = True
     enum_first_zero_bias: bool = True
     enum_first_zero: bool = False  # first member is always 0 (keeps recorded finding D4b out of a check)
+    subdirs: bool = False  # files in sub-directories, imports by relative paths (only checks that address files by File.filename)
     keyword_field_names: bool = False  # a field called `type`, rarely (encoding checks switch it on)
     extremes: bool = False  # rare extremes of the documented limits: capacity 65535, 255 fields, deep nesting (encoding checks switch it on)
     signed_nonstd: bool = True  # signed widths other than 8/16/32/64
@@ -503,6 +504,14 @@ def units(draw: Any, feat: Optional[Features] = None) -> Unit:
         prune_unused_imports(b.unit)
     if feat.shared_nested_names and feat.nested and feat.enums and draw(st.integers(0, 2)) == 0:
         share_nested_names(draw, b.unit, feat)
+    if feat.subdirs and len(b.unit.files) > 1 and draw(st.integers(0, 2)) == 0:
+        # files of one project in several directories: import paths are relative to the importing file
+        for f in b.unit.files:
+            f.subdir = draw(st.sampled_from(["", "", "sub", "sub/deep", "lib"]))
+        for f in b.unit.files:
+            for imp in f.imports():
+                if draw(st.integers(0, 3)) == 0:
+                    imp.spelling = "./" + imp.path_text
     if feat.max_bytes_option:
         from .model import iter_messages
 
@@ -788,6 +797,8 @@ def unit_labels(unit: Unit) -> List[str]:
         for imp in f.imports():
             if imp.as_name:
                 labs.add("import_as")
+            if "/" in imp.path_text:
+                labs.add("import_path_with_dirs")
         for it in f.items:
             if isinstance(it, Const):
                 labs.add("const")
